@@ -41,7 +41,8 @@ MANIFEST = {
             "reduces, slices the batch or coil axis, or accumulates. State: a call that performs no write to attributes, buffers, class attributes, module-level names, memo "
             "tables or process-wide switches answers any history (also interleaved with a second instance) as a function of its input; "
             "the effect table (10 kinds of writes/reads, incl. mutable defaults, in-place updates of parameters, grad-mode reads) is "
-            "decided empty up to a listed allowance. Coil order: every expression built from per-coil maps, element-wise combinations "
+            "decided empty up to a listed allowance; in-place updates are followed through a may-alias analysis (a local that is a "
+            "view-like image — permute / contiguous / view / slicing / `kwargs[...]` — of a parameter is the caller's tensor). Coil order: every expression built from per-coil maps, element-wise combinations "
             "of coil tensors, broadcasts of images and coil sums is equivariant (coil-valued) / invariant (image-valued) under any coil "
             "permutation; reduce_operator and the DC step the driver executes are such expressions; selecting a coil by position or "
             "convolving over coils-as-channels is not (witnesses).",
@@ -94,7 +95,12 @@ RULE = ("integer batches (b 1..4, c, h, w small, groups dividing) for the normal
         "autograd on, non-contiguous input, a second instance, batch order (thorough), all / two coil permutations; coil-count and "
         "batch-size ladders across the usual chunk thresholds (8, 16, 32) for the DC / likelihood blocks (MRILogLikelihood, "
         "reduce_operator, the DC step, StandardizationLayer, ConjGrad, EndToEndVarNetBlock; eval and train mode) and the cheapest "
-        "model of every family. non-trivial = "
+        "model of every family; every optional tensor argument of a forward supplied by the caller (RIM input_image / "
+        "initial_image= / initial_kspace= / previous_state=, RecurrentVarNet initial_image=, GRU hidden state) and every zoo "
+        "input in four memory layouts (H/W-transposed storage, permuted view of channels-first storage, channels-last storage of "
+        "a channels-first tensor, slice of a wider buffer) with input-unchanged, same-output, second-evaluation-of-the-same-tensors "
+        "and alone-after-batch (views into the batch storage) checks; layouts the model itself rejects (view_as_complex stride "
+        "rules) are counted as rejected, not judged. non-trivial = "
         "batch >= 2 or coils >= 2; distinct = distinct protocol line / (entry, size, batch, position, scale)")
 
 EXTRA_LEAN_MODULES = ["DirectVerif.Lemmas.C18Prims", "DirectVerif.Lemmas.C18Coil"]
@@ -156,10 +162,55 @@ def extra_entries():
     return E
 
 
+def optional_arg_entries():
+    """every optional tensor argument of a zoo model's `forward`, supplied by the caller: RIM's `input_image`, `initial_image=`,
+    `initial_kspace=`, `previous_state=` (with and without skip connections), RecurrentVarNet's `initial_image=`, the hidden
+    state of Conv2dGRU / NormConv2dGRU.  Kind "opt": dictionary inputs with the extra tensors named in the `needs:` tags."""
+    from direct.nn.recurrent.recurrent import Conv2dGRU, NormConv2dGRU
+    from direct.nn.recurrentvarnet.recurrentvarnet import RecurrentVarNet
+    from direct.nn.rim.rim import RIM
+
+    fwd, bwd = Z._ops()
+    rim = lambda **kw: (lambda: RIM(fwd, bwd, **{"hidden_channels": 4, "length": 2, "depth": 2, **kw}))  # noqa: E731
+    E = []
+
+    def add(name, build, call, needs, coil=True, **kw):
+        E.append(Z.Entry(name, "optional-args", "opt", build, "auto", call, coil_invariant=True,
+                         tags=("optional-arg",) + tuple("needs:" + n for n in needs) + (() if coil else ("nocoil",)), **kw))
+
+    k3 = lambda i: (i["masked_kspace"], i["sampling_mask"], i["sensitivity_map"])  # noqa: E731
+    for skip in (True, False):
+        sk = "" if skip else "/noskip"
+        add(f"RIM/input_image-arg{sk}", rim(skip_connections=skip), lambda m, i: m(i["image"], *k3(i))[0][-1], ["image"])
+        add(f"RIM/initial_image-kwarg{sk}", rim(skip_connections=skip, image_initialization="input_image"),
+            lambda m, i: m(None, *k3(i), initial_image=i["image"])[0][-1], ["image"])
+    add("RIM/initial_kspace-kwarg", rim(image_initialization="input_kspace"),
+        lambda m, i: m(None, *k3(i), initial_kspace=i["initial_kspace"])[0][-1], ["initial_kspace"])
+    add("RIM/previous_state-arg", rim(), lambda m, i: m(None, *k3(i), previous_state=i["state"])[0][-1], ["state:4:2"])
+    add("RIM/previous_state-returned", rim(), lambda m, i: m(i["image"], *k3(i), previous_state=i["state"])[1], ["image", "state:4:2"])
+    add("RecurrentVarNet/initial_image-kwarg",
+        lambda: RecurrentVarNet(fwd, bwd, num_steps=2, recurrent_hidden_channels=4, recurrent_num_layers=2, learned_initializer=True,
+                                initializer_initialization="input_image", initializer_channels=(2, 2, 4), initializer_dilations=(1, 1, 2)),
+        lambda m, i: T_reduce(m(i["masked_kspace"], i["sampling_mask"], i["sensitivity_map"], initial_image=i["image"]), i), ["image"])
+    for cls in (Conv2dGRU, NormConv2dGRU):
+        add(f"{cls.__name__}/previous_state-arg", lambda cls=cls: cls(in_channels=4, hidden_channels=4, out_channels=2, num_layers=2),
+            lambda m, i: m(i["x"], i["state"])[0], ["x:4", "state:4:2"], coil=False)
+        add(f"{cls.__name__}/previous_state-returned", lambda cls=cls: cls(in_channels=4, hidden_channels=4, out_channels=2, num_layers=2),
+            lambda m, i: m(i["x"], i["state"])[1], ["x:4", "state:4:2"], coil=False)
+    return E
+
+
+def T_reduce(kspace, i):
+    """image of a k-space output (so that the entry is coil-invariant like the other image outputs)"""
+    from direct.data import transforms as T
+    _fwd, bwd = Z._ops()
+    return T.reduce_operator(bwd(kspace, dim=(2, 3)), i["sensitivity_map"], 1)
+
+
 def zoo():
     global _ZOO
     if _ZOO is None:
-        _ZOO = [e for e in Z.zoo(thorough=_THOROUGH) if e.finding not in _UNUSABLE] + extra_entries()
+        _ZOO = [e for e in Z.zoo(thorough=_THOROUGH) if e.finding not in _UNUSABLE] + extra_entries() + optional_arg_entries()
     return _ZOO
 
 
@@ -496,6 +547,22 @@ def _inputs(e, n, h, w, seed, scale=1.0, coils=3):
     if e.kind == "mc":
         g = torch.Generator().manual_seed(seed)
         return torch.randn((n, coils, h, w, 2), generator=g) * scale
+    if e.kind == "opt":
+        g = torch.Generator().manual_seed(seed + 90001)
+        needs = [t[6:] for t in e.tags if t.startswith("needs:")]
+        d = {} if "nocoil" in e.tags else Z.recon_inputs(n, coils, h, w, seed=seed, scale=scale)
+        d.pop("scaling_factor", None)
+        for nd in needs:
+            parts = nd.split(":")
+            if parts[0] == "image":
+                d["image"] = torch.randn((n, h, w, 2), generator=g) * scale
+            elif parts[0] == "initial_kspace":
+                d["initial_kspace"] = torch.randn((n, coils, h, w, 2), generator=g) * scale * d["sampling_mask"]
+            elif parts[0] == "state":
+                d["state"] = torch.randn((n, int(parts[1]), h, w, int(parts[2])), generator=g) * 0.5
+            elif parts[0] == "x":
+                d["x"] = torch.randn((n, int(parts[1]), h, w), generator=g) * scale
+        return d
     inp = Z.recon_inputs(n, coils, h, w, seed=seed, scale=scale, slices=3 if e.kind == "recon3d" else None)
     inp["scaling_factor"] = torch.tensor([0.6 + 0.37 * ((seed + i) % 5) for i in range(n)])
     return inp
@@ -536,8 +603,147 @@ def _noncontiguous(inp):
 
 def _permute_coils(e, x, perm):
     if isinstance(x, dict):
-        return Z.permute_coils(x, perm)
+        out = Z.permute_coils(x, perm)
+        if "initial_kspace" in out:
+            out["initial_kspace"] = out["initial_kspace"][:, perm]
+        return out
     return x[:, perm]
+
+
+# ---- memory layouts: the same values behind different strides / storages ------------------------------------------------
+def _lay_tensor(t, layout):
+    if not torch.is_tensor(t) or t.dim() < 3:
+        return t.clone() if torch.is_tensor(t) else t
+    if layout == "contiguous":
+        return t.clone().contiguous()
+    if layout == "hw-transposed":
+        return t.transpose(-2, -3).contiguous().transpose(-2, -3)
+    if layout == "last-axis-first-storage":          # e.g. an (N, H, W, 2) image that is a permuted view of an (N, 2, H, W) tensor
+        order = [0, t.dim() - 1] + list(range(1, t.dim() - 1))
+        inv = [order.index(i) for i in range(t.dim())]
+        return t.permute(order).contiguous().permute(inv)
+    if layout == "second-axis-last-storage":         # e.g. an (N, C, H, W) tensor that is a permuted view of an (N, H, W, C) tensor
+        order = [0] + list(range(2, t.dim())) + [1]
+        inv = [order.index(i) for i in range(t.dim())]
+        return t.permute(order).contiguous().permute(inv)
+    if layout == "slice-of-wider-buffer":
+        # two extra entries on either side: complex views need an even storage offset and even outer strides
+        big = torch.zeros(t.shape[:-1] + (t.shape[-1] + 4,), dtype=t.dtype)
+        big[..., 2:-2] = t
+        return big[..., 2:-2]
+    raise KeyError(layout)
+
+
+LAYOUTS = ["hw-transposed", "last-axis-first-storage", "second-axis-last-storage", "slice-of-wider-buffer"]
+
+
+_COMPLEX_KEYS = ("masked_kspace", "sensitivity_map", "sampling_mask", "initial_kspace")
+
+
+def _lay(inp, layout):
+    """dictionary inputs: the permuted-storage layouts go to the caller-supplied optional tensors (image, state, x) when there
+    are any — k-space and maps feed `view_as_complex`, which rejects a non-unit last stride — otherwise to every tensor"""
+    if isinstance(inp, dict):
+        extra = [k for k in inp if k not in _COMPLEX_KEYS and torch.is_tensor(inp[k]) and inp[k].dim() >= 3]
+        if layout in ("last-axis-first-storage", "second-axis-last-storage") and extra:
+            return {k: _lay_tensor(v, layout if k in extra else "contiguous") for k, v in inp.items()}
+        return {k: _lay_tensor(v, layout) for k, v in inp.items()}
+    return _lay_tensor(inp, layout)
+
+
+def _tensors(inp):
+    return list(inp.items()) if isinstance(inp, dict) else [("input", inp)]
+
+
+def _snapshot(inp):
+    return {k: v.clone() for k, v in _tensors(inp) if torch.is_tensor(v)}
+
+
+def _changed(inp, snap):
+    """names of the input tensors whose values are no longer what they were (NaN counts as equal to NaN)"""
+    bad = []
+    for k, v in _tensors(inp):
+        if torch.is_tensor(v) and k in snap:
+            a, b = v, snap[k]
+            if a.shape != b.shape or not torch.equal(torch.nan_to_num(a.float(), nan=1234.5), torch.nan_to_num(b.float(), nan=1234.5)):
+                bad.append(k)
+    return bad
+
+
+def _sub(inp, pos):
+    """sample `pos` as a view of the batch tensors (sharing their storage)"""
+    if isinstance(inp, dict):
+        return {k: v[pos:pos + 1] for k, v in inp.items()}
+    return inp[pos:pos + 1]
+
+
+def _layout_checks(ctx, e, m, x, single, h, w, seed, coils, deep, only=None):
+    """the caller's tensors in several memory layouts: the forward must leave them as they were, give the same output as for
+    the plain layout, give it again on a second evaluation of the very same tensors, and give it for a sample evaluated alone —
+    as a view into the batch tensors — after the batch was evaluated"""
+    rng = ctx.rng
+    opt = e.kind == "opt"
+    layouts = LAYOUTS if (deep or opt) else rng.sample(LAYOUTS, 2)
+    if only is not None:
+        layouts = [only]
+    rep0 = {"op": "layout", "entry": e.name, "h": h, "w": w, "seed": seed}
+    for layout in layouts:
+        ctx.count((e.name, "layout", layout, h, w), True, bucket=f"oracle/layout/{layout}")
+        rep = dict(rep0, layout=layout)
+        xin = _lay(x, layout)
+        snap = _snapshot(xin)
+        try:
+            out1 = _run(e, m, xin).clone()
+        except Exception:  # noqa: BLE001
+            # the model does not accept this argument form (`view_as_complex` wants a unit last stride and an even offset):
+            # not this property's concern
+            ctx.count((e.name, "layout-rejected", layout), False, bucket=f"oracle/layout-rejected/{layout}")
+            continue
+        try:
+            ch = _changed(xin, snap)
+            out2 = _run(e, m, xin).clone()
+        except Exception as ex:  # noqa: BLE001
+            yield Violation(f"{e.name}:raises-{err_name(ex)}",
+                            f"{e.name}: the second evaluation of the same input tensors (layout `{layout}`) fails although the first worked: {str(ex)[:150]}", rep)
+            continue
+        if ch:
+            yield Violation(f"{e.name}:input-modified",
+                            f"{e.name}: the forward pass overwrote its input {ch} (memory layout `{layout}`): the caller's tensors "
+                            "differ after the call, so a second evaluation sees other data", dict(rep, modified=ch))
+        r = _rel(single, out1)
+        if not (r <= e.tol):
+            yield Violation(f"{e.name}:layout-dependence",
+                            f"{e.name}: the output depends on the memory layout of the inputs (`{layout}`): rel. difference {r:.2e}",
+                            dict(rep, observed_rel_diff=r))
+        if not torch.equal(torch.nan_to_num(out1), torch.nan_to_num(out2)):
+            yield Violation(f"{e.name}:nonrepeatable",
+                            f"{e.name}: a second evaluation of the very same input tensors (layout `{layout}`) differs (max rel {_rel(out1, out2):.2e})",
+                            dict(rep, observed_rel_diff=_rel(out1, out2)))
+        if opt or deep:
+            # alone after batch, sharing the batch's storage
+            ctx.count((e.name, "alone-after-batch", layout, h, w), True, bucket=f"oracle/alone-after-batch/{layout}")
+            items = [_inputs(e, 1, h, w, seed + 40, coils=coils), x, _inputs(e, 1, h, w, seed + 41, coils=coils)]
+            batch = _lay(_cat(e, items), layout)
+            snap = _snapshot(batch)
+            try:
+                outb = _run(e, m, batch).clone()
+            except Exception:  # noqa: BLE001
+                continue
+            try:
+                chb = _changed(batch, snap)
+                outv = _run(e, m, _sub(batch, 1)).clone()
+            except Exception as ex:  # noqa: BLE001
+                yield Violation(f"{e.name}:raises-{err_name(ex)}",
+                                f"{e.name}: a sample evaluated alone as a view of the batch tensors (layout `{layout}`) fails after the batch worked: {str(ex)[:150]}", rep)
+                continue
+            if chb:
+                yield Violation(f"{e.name}:input-modified",
+                                f"{e.name}: the forward pass overwrote its batched input {chb} (memory layout `{layout}`)", dict(rep, modified=chb, batched=True))
+            r = max(_rel(outb[1:2], outv), _rel(single, outv))
+            if not (r <= e.tol):
+                yield Violation(f"{e.name}:batch-dependence",
+                                f"{e.name}: a sample evaluated alone (as a view of the batch tensors, layout `{layout}`) after the batch "
+                                f"differs by {r:.2e} from its batched / single output", dict(rep, observed_rel_diff=r, alone_after_batch=True))
 
 
 def _size_for(e, rng, deep):
@@ -560,7 +766,13 @@ def _check_entry(ctx, e, deep, search=False):
         coils = 3
         x = _inputs(e, 1, h, w, seed, coils=coils)
         try:
-            single = _run(e, m, x)
+            snap = _snapshot(x)
+            single = _run(e, m, x).clone()
+            ch = _changed(x, snap)
+            if ch:
+                yield Violation(f"{e.name}:input-modified", f"{e.name}: the forward pass overwrote its input {ch}",
+                                {"op": "layout", "entry": e.name, "h": h, "w": w, "seed": seed, "layout": "contiguous", "modified": ch})
+                x = _inputs(e, 1, h, w, seed, coils=coils)
         except Exception as ex:  # noqa: BLE001
             yield Violation(f"{e.name}:raises-{err_name(ex)}", f"{e.name} fails on a single sample {(h, w)}: {str(ex)[:150]}",
                             {"op": "single", "entry": e.name, "h": h, "w": w, "seed": seed})
@@ -576,6 +788,7 @@ def _check_entry(ctx, e, deep, search=False):
             yield Violation(f"{e.name}:nonrepeatable", f"{e.name}: repeated evaluation of the same input differs (max rel {_rel(single, again):.2e})",
                             {"op": "repeat", "entry": e.name, "h": h, "w": w, "seed": seed})
         yield from _history_checks(ctx, e, m, x, single, h, w, seed, coils, deep)
+        yield from _layout_checks(ctx, e, m, x, single, h, w, seed, coils, deep)
         # (a) batch of k vs alone; companions of ordinary, extreme, zero magnitude, or copies of the sample itself
         configs = [(k, pos, sc) for k in ((2, 3, 4) if deep else (2, 3)) for pos in range(k) for sc in (1.0, 1e4, 1e-4, 0.0, "dup")]
         if not deep:
@@ -606,7 +819,7 @@ def _check_entry(ctx, e, deep, search=False):
                                 f"{e.name}: output of a sample differs by {r:.2e} (relative) between batch of {k} (position {pos}, "
                                 f"companions x{sc:g}) and alone; tolerance {e.tol:g}", rep)
         # (c) coil permutation
-        if e.kind in ("recon", "recon3d", "mc"):
+        if e.kind in ("recon", "recon3d", "mc") or (e.kind == "opt" and "nocoil" not in e.tags):
             perms = list(itertools.permutations(range(coils))) if deep else [(2, 0, 1), (1, 0, 2)]
             for perm in perms[1:] if deep else perms:
                 perm = list(perm)
@@ -626,7 +839,7 @@ def _history_checks(ctx, e, m, x, single, h, w, seed, coils, deep):
     different order, a second instance of the same model interleaved with the first"""
     rng = ctx.rng
     rep = {"entry": e.name, "h": h, "w": w, "seed": seed}
-    which = ["toggle", "grad", "noncontig", "fresh-instance"] + (["order"] if deep else [])
+    which = ["toggle", "grad", "fresh-instance"] + (["order", "noncontig"] if deep else [])
     for kind in which:
         ctx.count((e.name, kind, h, w), True, bucket=f"oracle/history/{kind}")
         try:
@@ -915,7 +1128,7 @@ def replay(rep: dict) -> bool:
         e = next((b for b in blocks() if b.name == rep["entry"]), None)
         m = e.module() if e is not None else None
         if e is None:
-            e = next((x for x in Z.zoo(thorough=True) + extra_entries() if x.name == rep["entry"]), None)
+            e = next((x for x in Z.zoo(thorough=True) + extra_entries() + optional_arg_entries() if x.name == rep["entry"]), None)
             if e is None:
                 return True
             m = model_of(e)
@@ -924,9 +1137,9 @@ def replay(rep: dict) -> bool:
         except Exception:  # noqa: BLE001
             return True
         return not (r <= tol)
-    if op not in ("batch", "single", "repeat", "perm", "history"):
+    if op not in ("batch", "single", "repeat", "perm", "history", "layout"):
         return True
-    e = next((x for x in Z.zoo(thorough=True) + extra_entries() if x.name == rep["entry"]), None)
+    e = next((x for x in Z.zoo(thorough=True) + extra_entries() + optional_arg_entries() if x.name == rep["entry"]), None)
     if e is None:
         return True
     m = model_of(e)
@@ -938,6 +1151,17 @@ def replay(rep: dict) -> bool:
             return False
         if op == "repeat":
             return not torch.equal(single, _run(e, m, x))
+        if op == "layout":
+            class _C2:
+                rng = __import__("random").Random(0)
+                thorough = False
+                def count(self, *a, **k):
+                    pass
+            if rep["layout"] == "contiguous":
+                snap = _snapshot(x)
+                _run(e, m, x)
+                return bool(_changed(x, snap))
+            return any(True for _v in _layout_checks(_C2(), e, m, x, single, h, w, seed, 3, True, only=rep["layout"]))
         if op == "history":
             class _C:                       # a minimal ctx for the generator
                 rng = __import__("random").Random(0)
